@@ -30,6 +30,11 @@ import (
 	"github.com/skycoin/skycoin/src/visor"
 	"github.com/skycoin/skycoin/src/visor/dbutil"
 	"github.com/skycoin/skycoin/src/wallet"
+	// the wallet types register their loaders on import (the real node imports them in cmd/skycoin)
+	_ "github.com/skycoin/skycoin/src/wallet/bip44wallet"
+	_ "github.com/skycoin/skycoin/src/wallet/collection"
+	_ "github.com/skycoin/skycoin/src/wallet/deterministic"
+	_ "github.com/skycoin/skycoin/src/wallet/xpubwallet"
 
 	"verif/lib/fix"
 )
@@ -190,6 +195,7 @@ func Start(o Options) (*Node, error) {
 	dc.Daemon.UnconfirmedVerifyTxn = chain.Unconfirmed
 	dc.Daemon.MaxBlockTransactionsSize = chain.MaxBlock
 	dc.Daemon.LogPings = false
+	dc.Daemon.MaxLastBlocksCount = 256
 	dc.Daemon.IPCountsMax = 1000
 	// long timers: nothing fires during a run unless the workload asks for it
 	dc.Daemon.IntroductionWait = time.Hour
